@@ -386,7 +386,10 @@ class Env:
         def end():
             for r in self.recorders:
                 if r.disposed_step is None:
-                    r.dispose()
+                    try:
+                        r.dispose()
+                    except Exception as e:  # a raising finally/dispose callback must not keep the horizon from stopping the run
+                        self.sched.escaped.append((self.sched._clock, e))
             # stop only after whatever the horizon disposal scheduled for this same instant
             # (e.g. subscribe_on's ScheduledDisposable) has run
             self.at(horizon, self.sched.stop)
